@@ -1,4 +1,5 @@
 pub mod c01;
+pub mod ctx;
 pub mod c03;
 pub mod c04;
 pub mod c05;
